@@ -1,7 +1,7 @@
 """C06 — EER is a crossing point (DESIGN §4 C06)."""
 from __future__ import annotations
 
-from ..evalr import FuncV
+from ..evalr import FuncV, Obj
 from ..spec import GAMMAS, SCORES, POS, NEG, EP, EN, returns, raises, unmodelled_text, pc_text
 from ..terms import (App, Const, Num, Sym, Tup, TRUE, FALSE, same, show, sub, add, mul, div, neg, subst, atoms_of, to_poly, mk_num, negate, compare,
                      cmp0)
@@ -150,10 +150,13 @@ def run(ctx, chk, tier):
                 chk.unknown("R06.1", "eer() %s: %d return paths" % (tag, len(rets)))
                 continue
             for i, o in enumerate(rets):
-                if not (isinstance(o.value, Tup) and len(o.value.items) == 2):
+                val_ = o.value
+                if isinstance(val_, Obj) and getattr(val_, "nt_fields", None) is not None and len(val_.nt_fields) == 2:
+                    val_ = Tup([val_.attrs[f_] for f_ in val_.nt_fields])       # a (threshold, eer) NamedTuple is the pair
+                if not (isinstance(val_, Tup) and len(val_.items) == 2):
                     chk.unknown("R06.1", "eer() %s returns %s" % (tag, show(o.value, 80)))
                     continue
-                t, e = o.value.items
+                t, e = val_.items
                 pcs = {c.key: tk for c, tk in o.pc}
                 inst = "%s:path%d" % (tag, i)
                 kind = None
@@ -216,6 +219,10 @@ def run(ctx, chk, tier):
                     chk.hold("R06.3", inst + ":threshold", "threshold = setter(EER) [%s]" % kind)
                 elif any(isinstance(a, App) and (a.fn.startswith("dict.") or a.fn.startswith("ext:")) for a in atoms_of(t)):
                     chk.unknown("R06.3", "%s: threshold %s is read from a container the analysis cannot resolve" % (inst, show(t, 120)))
+                elif not any(isinstance(a, App) and a.fn in ("TFPR", "TFNR") for a in [t] + list(atoms_of(t))):
+                    # the threshold is not computed through the setters the rule replaces by tokens (a private implementation bound some other
+                    # way): it cannot be compared in this vocabulary
+                    chk.unknown("R06.3", "%s: threshold is not expressed through threshold_at_fpr / threshold_at_fnr: %s" % (inst, show(t, 120)))
                 else:
                     chk.violation("R06.3", EERQ, tag + ":threshold-of-eer:" + kind, "%s on path [%s]" % (show(t, 160), pc_text(o)[-160:]), why, ctx.where(EERQ))
             if nroot == 0:
